@@ -132,4 +132,20 @@ def boundary_probes():
                         out.append(("rejected_update_accepted" if accepted else "out_of_bounds",
                                     "%s(%r) on a parameter bounded to [%r, %r]: %s; value now %r" % (how, v, lo, hi, "accepted" if accepted else "refused but changed", got)))
                         break
+    # numbers of other numeric types are numbers: far outside the bounds they are refused like a float would be
+    import numpy as np
+    from fractions import Fraction
+    for v in (np.int64(3), np.int32(-2), np.float32(1.5), Fraction(7, 2), np.float64(-0.25), np.int16(5)):
+        p = lw.Parameter(0.5, bounds=[0, 1])
+        pd = lw.ParameterDict()
+        pd["a"] = p
+        for how, call in (("Parameter.set", lambda: p.set(v)), ("ParameterDict assignment", lambda: pd.__setitem__("a", v))):
+            try:
+                call()
+                accepted = True
+            except Exception:  # noqa: BLE001
+                accepted = False
+            if accepted or not (0 <= p.get() <= 1):
+                out.append(("rejected_update_accepted", "%s(%r) on a parameter bounded to [0, 1] was accepted; value now %r" % (how, v, p.get())))
+                break
     return out
